@@ -87,6 +87,12 @@ type dfsState struct {
 func (st *dfsState) runOne(devs []Dev) (*Chooser, *Failure) {
 	c := &Chooser{devs: devs}
 	var f *Failure
+	if st.r != nil {
+		done := InFlight(func() Case {
+			return Case{Harness: st.d.Name, Config: st.cfg, Trace: J(devs), Msg: "execution with these deviations", Step: -1}
+		})
+		defer done()
+	}
 	func() {
 		defer func() {
 			if p := recover(); p != nil {
